@@ -237,6 +237,25 @@ def check_exact(case, rec):
             require(float(np.max(np.abs(np.asarray(v4)[sl]))) <= tolv * 10,
                     f"one call for {tg.shape[1]} targets containing the data locations: kriging variance at the data is {float(np.max(np.abs(np.asarray(v4)[sl]))):.3g}, expected 0 (tol {tolv * 10:.3g})",
                     dict(tags, kind="variance_at_data_many_targets"))
+    if fdim == 2 and cfg["geo"] == "euclid" and cfg.get("n_ext", 0) and cond_pos.shape[1] <= 7 and not case.get("fit"):
+        # external drift on a structured grid that contains the data locations, handed over in Fortran order (e.g. the transpose of
+        # a drift evaluated on np.meshgrid with "xy" indexing)
+        ax0, ax1 = np.unique(cond_pos[0]), np.unique(cond_pos[1])
+        G0, G1 = np.meshgrid(ax0, ax1, indexing="ij")
+        gp = np.array([G0.ravel(), G1.ravel()])
+        ed = np.array([kc.ext_drift_fn(i_, gp) for i_ in range(cfg["n_ext"])]).reshape((cfg["n_ext"],) + G0.shape)
+        with quiet():
+            k.set_condition(cond_pos.copy(), vals.copy(), np.array([kc.ext_drift_fn(i_, cond_pos) for i_ in range(cfg["n_ext"])]))
+            f6, v6 = lib(k, [ax0.copy(), ax1.copy()], mesh_type="structured", ext_drift=np.asfortranarray(ed), _what="Krige.structured with a Fortran-ordered external drift", _tags=tags)
+        i0 = np.searchsorted(ax0, cond_pos[0])
+        i1 = np.searchsorted(ax1, cond_pos[1])
+        rec.label("structured_ext_drift_fortran_order")
+        if np.all(np.isfinite(f6)):
+            e6 = np.abs(np.asarray(f6)[i0, i1] - vals)
+            require(bool(np.all(e6 <= tolf * 10)) and float(np.max(np.abs(np.asarray(v6)[i0, i1]))) <= tolv * 10,
+                    f"structured grid containing the data locations, external drift given in Fortran order: data missed by {float(np.max(e6)):.3g}, "
+                    f"variance at the data {float(np.max(np.abs(np.asarray(v6)[i0, i1]))):.3g}",
+                    dict(tags, kind="not_exact_structured_ext_drift"))
     if fdim > 1 and cfg["geo"] == "euclid" and not cfg.get("n_ext", 0) and not case.get("fit") and not mn and cond_pos.shape[1] >= 2:
         # the object re-oriented in place + the documented refresh, then asked again on the targets it keeps (no positions passed)
         with quiet():
